@@ -45,6 +45,14 @@ CLAIMED = {
              "the cursor by the width and returns Int/Float classes. struct.unpack is assumed to compute the Spec-level ieeeDecode "
              "and validated against an independent Fraction-based decoder on every run.",
         design="§7 C04", technique="Lean 4 proof (bit algebra on top of C03) + correspondence check"),
+    "C06": dict(
+        text="operator_table (decide over the finite table) + int_relations / float_relations / int_float_relations (the six "
+             "relations are the mathematical ones on Int/Rat, exact across int/float) + comparison_truth / comparison_current / "
+             "condition_truth (which value and which literal type are compared, for every value incl. 0/False/empty) + anded_sem / "
+             "ored_sem (mutual structural induction: the early-exit loops equal the plain conjunction/disjunction at any nesting "
+             "depth) + list_is_conjunction + lookup_first_match. Tied to the code by exhaustive expression shapes x truth tables, "
+             "all 16 spellings, both selectors, live comparison of the operator table, and an independent recursive evaluator.",
+        design="§7 C06", technique="Lean 4 proof (mutual structural induction, decide) + correspondence check"),
 }
 
 NOT_YET = "check not built yet (work in progress; see DESIGN.md §11 build order)"
